@@ -301,9 +301,18 @@ def _run_grid(case):
     nt = False
     cat = InstanceCatalog()
     c, r = case["core"], case["ram"]
+    # every other case asks through ONE request object that is edited in place between the look-ups (the answer is a
+    # function of the request's value at the time of the call, whichever object carries it)
+    reuse = (c + r) % 2 == 0
+    shared = None
     for d in case["disk"]:
-        req = f"request core={c} ram={r} disk={d} extra={case.get('extra')}"
-        cap = Capacities(core=c, ram=r, disk=d, **case.get("extra", {}))
+        req = f"request core={c} ram={r} disk={d} extra={case.get('extra')}" + (" [request object re-used]" if reuse else "")
+        if reuse and shared is not None:
+            cap = shared
+            cap.disk = d
+        else:
+            cap = Capacities(core=c, ram=r, disk=d, **case.get("extra", {}))
+            shared = cap
         before = dict(cap.__dict__)
         try:
             name = cat.map_capacities_to_instance(cap=cap)
